@@ -4,6 +4,7 @@
 import GeonumModel.Lemmas.AngleStep
 import GeonumModel.Lemmas.Shift
 import GeonumModel.Lemmas.Exact
+import GeonumModel.Lemmas.ExactAdd
 
 set_option linter.unusedSectionVars false
 set_option linter.unusedVariables false
@@ -140,6 +141,50 @@ theorem reflect_involution_real {g axis : Geonum ℝ} (hg : g.angle.Inv) (hax : 
   · have := abs_sub δ2 δ1
     linarith
   · rw [h2, h1]; push_cast; ring
+
+theorem polar_mul (a b s t : ℝ) : polar a s * polar b t = polar (a * b) (s + t) := by
+  apply Complex.ext <;> simp [polar, Complex.mul_re, Complex.mul_im, Real.cos_add, Real.sin_add] <;> ring
+
+theorem ofReal_mul_polar (f m θ : ℝ) : (f : ℂ) * polar m θ = polar (f * m) θ := by
+  apply Complex.ext <;> simp [polar, Complex.mul_re, Complex.mul_im] <;> ring
+
+/-- (E) **scale-rotate multiplies the Cartesian vector by the signed factor and rotates it**: the Cartesian point of
+    `g.scale_rotate(f, r)` is `f · e^{i·T r} · cart g` to within `|f|·|g|·(1e-10 + 1e-15)` — for every finite factor, the negative
+    ones being encoded as `|f|` and a half turn -/
+theorem scaleRotate_cartesian_real {g : Geonum ℝ} {r : Angle ℝ} (f : ℝ) (hg : g.angle.Inv) (hr : r.Inv) (h0 : 0 ≤ g.mag) :
+    ‖cart (g.scaleRotate f r) - (f : ℂ) * (polar 1 (T r) * cart g)‖ ≤ |f| * g.mag * (1 / 10 ^ 10 + 1 / 10 ^ 15) := by
+  have htarget : (f : ℂ) * (polar 1 (T r) * cart g) = polar (g.mag * f) (T g.angle + T r) := by
+    show (f : ℂ) * (polar 1 (T r) * polar g.mag (T g.angle)) = _
+    rw [polar_mul, ofReal_mul_polar]
+    congr 1 <;> ring
+  rw [htarget]
+  have key : ∀ δ : ℝ, |δ| < 1 / 10 ^ 10 + 1 / 10 ^ 15 →
+      ‖polar (g.mag * f) (T g.angle + T r + δ) - polar (g.mag * f) (T g.angle + T r)‖
+        ≤ |f| * g.mag * (1 / 10 ^ 10 + 1 / 10 ^ 15) := by
+    intro δ hδ
+    refine le_trans (norm_polar_sub_le _ _ _) ?_
+    have e : T g.angle + T r + δ - (T g.angle + T r) = δ := by ring
+    rw [e, abs_mul, abs_of_nonneg h0, mul_comm g.mag |f|]
+    exact mul_le_mul_of_nonneg_left (le_of_lt hδ) (mul_nonneg (abs_nonneg _) h0)
+  by_cases hf : f < 0
+  · have hlt : flt f (zero : ℝ) = true := by rw [r_lt, lit_real.1]; simpa using hf
+    rw [(scaleRotate_spec g f r).1 hlt]
+    have hninv : g.angle.negate.Inv := inv_of_spec hg (negate_spec hg).2
+    obtain ⟨δ, hδ, hT⟩ := add_total_real hninv hr
+    show ‖polar (fmul g.mag (fabs f)) (T (g.angle.negate.geometricAdd r)) - _‖ ≤ _
+    rw [hT, negate_total_real hg, r_mul, r_abs, abs_of_neg hf]
+    have e : T g.angle + Real.pi + T r + δ = (T g.angle + T r + δ) + Real.pi := by ring
+    rw [e, polar_add_pi, ← polar_neg]
+    have e2 : -(g.mag * -f) = g.mag * f := by ring
+    rw [e2]
+    have hk := key δ hδ
+    rwa [abs_of_neg hf] at hk
+  · have hlt : flt f (zero : ℝ) = false := by rw [r_lt, lit_real.1]; simpa using hf
+    rw [(scaleRotate_spec g f r).2 hlt]
+    obtain ⟨δ, hδ, hT⟩ := add_total_real hg hr
+    show ‖polar (fmul g.mag f) (T (g.angle.geometricAdd r)) - _‖ ≤ _
+    rw [hT, r_mul]
+    exact key δ hδ
 
 end E
 
